@@ -108,6 +108,10 @@ def run(c, idx, base):
                 m.__path__ = [os.path.join(top, *(r[1] + rel)) for r in order if os.path.isdir(os.path.join(top, *(r[1] + rel)))]
             else:
                 names.append(name)
+                if name.split('.')[-1] in c.get('bad_stems', ()):
+                    # a test module whose own imports fail (a missing dependency): reported as a start-up failure of that
+                    # module — and not tried again under another name
+                    raise ModuleNotFoundError("No module named 'missing_dependency'")
                 m.test_suite = lambda: __import__('unittest').TestSuite()
             return m
         F.import_name = fake_import
